@@ -78,8 +78,11 @@ PROPS.update({
     "C07": {
         "title": "Sender transmits exactly the source file: right bytes, offsets, sizes, checksum",
         "verus": [("send", ["O-C07-"])],
-        "level": "proof",
-        "technique": "deductive verification (Verus/Z3) of the sender's PDU assembly functions; file access under assumed POSIX contracts",
+        "native": [{"prog": "naksplit_bounded", "quick": ["search", "2", "10"], "thorough": ["search", "2", "14"], "obligation": "O-C07-naksplit-N",
+                    "fn": "SendTransaction::process_pdu", "file": "cfdp-daemon/src/transaction/send.rs",
+                    "bound": "segment size 4; every NAK list of <= 2 requests over offsets 0..=10 (14 thorough); pairs of successive NAKs"}],
+        "level": "other",
+        "technique": "deductive verification (Verus/Z3) of the sender's PDU assembly functions (file access under assumed POSIX contracts) + bounded native check of the NAK splitter via a cfg-guarded hook",
         "design_ref": "DESIGN.md 4/C07",
         "level_text": "Partial, proof of function contracts: every PDU built by send_file_segment / send_eof / send_prompt / send_ack is handed to the "
                       "transport with the configured destination, a header whose identifiers, mode, direction, CRC and file-size flags come from the "
@@ -87,8 +90,10 @@ PROPS.update({
                       "returned by get_file_segment, which never returns more than the requested length / configured segment size and reads at the "
                       "requested offset; send_missing_data consumes exactly the first queued request, restores nothing it should not and never moves the "
                       "progress; send_eof sends the stored EOF once per arming; send_pdu's dispatch reaches the emitters only as its guard allows. "
-                      "UNDER ASSUMED file contracts (seek/position/read of std::fs::File as stubs). NOT decided: the NAK splitter and de-duplication in "
-                      "process_pdu (iterator chain), send_metadata (iterator chain), that the first pass tiles the file once in order (state machine "
+                      "UNDER ASSUMED file contracts (seek/position/read of std::fs::File as stubs). BOUNDED: the NAK splitter and de-duplication of "
+                      "process_pdu (iterator chain + HashSet, a stub in the Verus unit) is checked on the real code through the hook "
+                      "verif_pending_requests: for every NAK list of <= 2 requests over a small offset range the queue holds exactly the requested bytes, "
+                      "split to the segment size, markers kept, no duplicates. NOT decided: send_metadata (iterator chain), that the first pass tiles the file once in order (state machine "
                       "across calls), that the EOF checksum is the file's checksum (get_checksum is a stub; the checksum routine itself is C14).",
         "level_note": VERUS_NOTE + "File I/O stubs vx_stream_position/vx_seek_start/vx_read_up_to/vx_file_len replace `<io call>.map_err(..)?` by declared rewrites; "
                       "PDUPayload::encoded_len is uninterpreted here (its agreement with the encoder is property C05).",
